@@ -75,10 +75,14 @@ var core = []scope{
 	sc("REG.io", "", "a"), sc("Reg.io", ":5000", "a", "b"),
 	sc("reg.io", "", "a-b"), sc("reg.io", "", "a_b"), sc("reg.io", "", "a.b"),
 	sc("reg.io.x", "", "a"), sc("reg.i", "", "a"), sc("eg.io", "", "a"),
+	// hosts spelt with the letters of URL schemes (oci://, https://, docker://), next to the
+	// hosts that are left when such letters are stripped from the front
+	sc("icr.io", "", "a"), sc("r.io", "", "a"), sc("cgr.dev", "", "a"), sc("gr.dev", "", "a"), sc("oci.reg.io", "", "a"), sc("docker.io", "", "a"),
 }
 
 var (
-	domPool  = []string{"reg.io", "REG.io", "Reg.io", "reg.i", "reg.io.x", "eg.io", "xreg.io", "reg-io", "localhost", "reg"}
+	domPool  = []string{"reg.io", "REG.io", "Reg.io", "reg.i", "reg.io.x", "eg.io", "xreg.io", "reg-io", "localhost", "reg",
+		"icr.io", "r.io", "cgr.dev", "gr.dev", "oci.reg.io", "docker.io", "https.reg.io", "io.reg.io", "127.0.0.1"}
 	portPool = []string{"", "", ":5000", ":500", ":50000", ":443"}
 	compPool = []string{"a", "b", "c", "ab", "bc", "a-b", "a_b", "a.b", "a__b", "b0"}
 	// truncations of pool components that are themselves well formed
